@@ -3,7 +3,8 @@ use crate::common::{any_msg, drain, pid, pt, MsgR, PtR};
 use pallas_network2::behavior::responder::{ResponderBehavior, ResponderCommand};
 use pallas_network2::behavior::{InitiatorBehavior, InitiatorCommand};
 use pallas_network2::protocol as proto;
-use pallas_network2::{Behavior, InterfaceError, InterfaceEvent};
+use pallas_network2::{Behavior, BehaviorOutput, InterfaceCommand, InterfaceError, InterfaceEvent, PeerId};
+use std::collections::VecDeque;
 use proptest::prelude::*;
 use pvkit::{Fail, Obs, Session};
 use serde::{Deserialize, Serialize};
@@ -16,6 +17,10 @@ pub enum Ev {
     Idle,
     Sent(u8, MsgR),
     Recv(u8, Vec<MsgR>),
+    /// deliver the Sent confirmation of the oldest message the behaviour emitted and that is still unconfirmed
+    ConfirmSend,
+    /// answer the oldest Connect command the behaviour emitted with a Connected event
+    ConfirmConnect,
     // initiator commands
     Include(u8),
     Housekeeping,
@@ -76,6 +81,23 @@ fn ev(peers: u8) -> impl Strategy<Value = Ev> {
     ]
 }
 
+/// Events for the "echo" families: the harness mostly plays a real interface (answers Connect commands, confirms
+/// the behaviour's own sends in order) so that handshakes complete and the mini-protocols advance, and mixes in
+/// replies of any kind plus the commands and faults of `ev`. This reaches the states behind a completed handshake
+/// that fully arbitrary sequences almost never reach.
+fn ev_echo(peers: u8) -> impl Strategy<Value = Ev> {
+    let p = 0..peers;
+    prop_oneof![
+        10 => Just(Ev::ConfirmSend),
+        5 => Just(Ev::ConfirmConnect),
+        6 => Just(Ev::Housekeeping),
+        2 => p.clone().prop_map(Ev::Include),
+        3 => (p.clone(), prop_oneof![Just(13u64), Just(15u64)]).prop_map(|(a, v)| Ev::Recv(a, vec![MsgR::HsAccept(v, 764824073)])),
+        8 => (p.clone(), prop::collection::vec(any_msg(), 1..3)).prop_map(|(a, m)| Ev::Recv(a, m)),
+        6 => ev(peers),
+    ]
+}
+
 fn io<M: pallas_network2::Message>(e: &Ev, build: impl Fn(&MsgR) -> M) -> Option<InterfaceEvent<M>> {
     Some(match e {
         Ev::Connected(p) => InterfaceEvent::Connected(pid(*p + 1)),
@@ -86,6 +108,46 @@ fn io<M: pallas_network2::Message>(e: &Ev, build: impl Fn(&MsgR) -> M) -> Option
         Ev::Recv(p, ms) => InterfaceEvent::Recv(pid(*p + 1), ms.iter().map(&build).collect()),
         _ => return None,
     })
+}
+
+/// What the behaviour asked the interface to do and the harness has not yet answered.
+struct Pending<M: pallas_network2::Message> {
+    sends: VecDeque<(PeerId, M)>,
+    connects: VecDeque<PeerId>,
+}
+
+impl<M: pallas_network2::Message> Pending<M> {
+    fn new() -> Self {
+        Pending { sends: VecDeque::new(), connects: VecDeque::new() }
+    }
+    fn take<B: Behavior<Message = M>>(&mut self, outs: Vec<BehaviorOutput<B>>) -> usize {
+        let n = outs.len();
+        for o in outs {
+            if let BehaviorOutput::InterfaceCommand(c) = o {
+                match c {
+                    InterfaceCommand::Send(p, m) => {
+                        if self.sends.len() < 4096 {
+                            self.sends.push_back((p, m))
+                        }
+                    }
+                    InterfaceCommand::Connect(p) => {
+                        if self.connects.len() < 4096 {
+                            self.connects.push_back(p)
+                        }
+                    }
+                    _ => {}
+                }
+            }
+        }
+        n
+    }
+    fn echo(&mut self, e: &Ev) -> Option<InterfaceEvent<M>> {
+        match e {
+            Ev::ConfirmSend => self.sends.pop_front().map(|(p, m)| InterfaceEvent::Sent(p, m)),
+            Ev::ConfirmConnect => self.connects.pop_front().map(InterfaceEvent::Connected),
+            _ => None,
+        }
+    }
 }
 
 fn tip() -> proto::chainsync::Tip {
@@ -107,8 +169,14 @@ fn run_initiator(evs: &[Ev], small: bool, obs: &mut Obs) {
         InitiatorBehavior::default()
     };
     let mut outputs = 0usize;
+    let mut pend = Pending::new();
     for e in evs {
-        if let Some(x) = io(e, |m| m.build()) {
+        if matches!(e, Ev::ConfirmSend | Ev::ConfirmConnect) {
+            if let Some(x) = pend.echo(e) {
+                obs.class(if matches!(e, Ev::ConfirmSend) { "echo:send-confirmed" } else { "echo:connect-answered" });
+                b.handle_io(x);
+            }
+        } else if let Some(x) = io(e, |m| m.build()) {
             b.handle_io(x);
         } else {
             let cmd = match e {
@@ -128,7 +196,7 @@ fn run_initiator(evs: &[Ev], small: bool, obs: &mut Obs) {
                 b.execute(c);
             }
         }
-        outputs += drain(&mut b).len();
+        outputs += pend.take(drain(&mut b));
     }
     // the behaviour must still be able to run a housekeeping pass and produce outputs
     b.execute(InitiatorCommand::Housekeeping);
@@ -139,8 +207,14 @@ fn run_initiator(evs: &[Ev], small: bool, obs: &mut Obs) {
 fn run_responder(evs: &[Ev], obs: &mut Obs) {
     let mut b = ResponderBehavior::default();
     let mut outputs = 0usize;
+    let mut pend = Pending::new();
     for e in evs {
-        if let Some(x) = io(e, |m| m.build()) {
+        if matches!(e, Ev::ConfirmSend | Ev::ConfirmConnect) {
+            if let Some(x) = pend.echo(e) {
+                obs.class(if matches!(e, Ev::ConfirmSend) { "echo:send-confirmed" } else { "echo:connect-answered" });
+                b.handle_io(x);
+            }
+        } else if let Some(x) = io(e, |m| m.build()) {
             b.handle_io(x);
         } else {
             let cmd = match e {
@@ -166,7 +240,7 @@ fn run_responder(evs: &[Ev], obs: &mut Obs) {
                 b.execute(c);
             }
         }
-        outputs += drain(&mut b).len();
+        outputs += pend.take(drain(&mut b));
     }
     b.execute(ResponderCommand::Housekeeping);
     outputs += drain(&mut b).len();
@@ -213,7 +287,31 @@ pub fn run(s: &Session) {
             ],
         });
     }
+    // two peers: the first over-answers (or answers with just under the high-water mark), the second one finishes its
+    // handshake afterwards and is asked for the remainder
+    let hs = |p: u8| vec![Ev::Connected(p), Ev::Sent(p, MsgR::HsPropose(vec![(13, 764824073)])), Ev::Recv(p, vec![MsgR::HsAccept(13, 764824073)])];
+    for n in [1u16, 30, 63, 64, 65, 80, 99, 100, 101, 150, 255, 256] {
+        let mut evs = vec![Ev::Include(0), Ev::Include(1), Ev::Housekeeping];
+        evs.extend(hs(0));
+        evs.extend([Ev::Housekeeping, Ev::ConfirmSend, Ev::ConfirmSend, Ev::ConfirmSend, Ev::ConfirmSend, Ev::Sent(0, MsgR::PsShareRequest(100)), Ev::Recv(0, vec![MsgR::PsSharePeersMany(n)]), Ev::Housekeeping]);
+        evs.extend(hs(1));
+        evs.extend([Ev::Housekeeping, Ev::Idle, Ev::Housekeeping, Ev::ConfirmSend, Ev::ConfirmSend, Ev::ConfirmSend, Ev::ConfirmSend, Ev::ConfirmSend, Ev::ConfirmSend, Ev::Recv(1, vec![MsgR::PsSharePeersMany(n)]), Ev::Housekeeping, Ev::Housekeeping]);
+        for small in [false, true] {
+            directed.push(Case { responder: false, small_limits: small, evs: evs.clone() });
+        }
+    }
     s.foreach("directed", directed, false, check);
+    for (name, responder, maxlen, small) in [
+        ("initiator-echo", false, 120usize, false), ("initiator-echo-small-limits", false, 120, true), ("responder-echo", true, 80, false),
+    ] {
+        let n = s.pick(20_000, 600_000);
+        s.forall(
+            name,
+            n,
+            move || prop::collection::vec(ev_echo(3), 4..=maxlen).prop_map(move |evs| Case { responder, small_limits: small, evs }),
+            check,
+        );
+    }
     for (name, responder, maxlen, small) in [
         ("initiator-short", false, 12usize, false), ("initiator-long", false, 300, false), ("initiator-small-limits", false, 60, true),
         ("responder-short", true, 12, false), ("responder-long", true, 300, false),
